@@ -286,7 +286,7 @@ def check_stamp_and_count(ck, P, rid):
             if bv is None:
                 continue
             n_send += 1
-            size = X.callee_args(c)[1]
+            size = Q.resolve_local(f, X.callee_args(c)[1])
             is_anti = X.const_int(size) is not None
             want = "gvt_remote_anti_msg_send" if is_anti else "gvt_remote_msg_send"
             inst = "stamp@%s" % f.name
